@@ -104,6 +104,42 @@ try:
 except ValueError:
     pass
 
+# implicit scopes (<lambda>, <genexpr>, <listcomp>) are looked up like any other name: among the DIRECT children only
+SRC3 = '''
+def outer3():
+    gen = ((lambda: "in-genexpr") for _ in range(1))
+    lam = lambda: "direct"
+    return gen, lam
+'''
+ns3 = {}
+exec(compile(SRC3, "<gen3>", "exec"), ns3)
+o3 = ns3["outer3"]
+gen3, lam3 = o3()
+leg.case(("nested-implicit-scope", "<lambda>"), True)
+try:
+    got3 = get_code(o3, "<lambda>")
+    if got3 is not lam3.__code__:
+        leg.violation(("nested-implicit-scope", "<lambda>"), f"get_code(outer3, '<lambda>') is {got3!r}, the direct child lambda runs {lam3.__code__!r}")
+except Exception as e:
+    leg.violation(("nested-implicit-scope", "<lambda>"), f"get_code(outer3, '<lambda>') raised {e!r}")
+
+# the LATEST customize() of a target wins, also when it switches everything off again
+import stackscope as _ss
+def cust_target():
+    return _ss.extract_since(None).frames[-1]
+for form in ("direct", "decorator"):
+    leg.case(("customize-latest-wins", form), True)
+    _ss.customize(cust_target, hide=True, hide_line=True)
+    fr_on = cust_target()
+    if form == "direct":
+        _ss.customize(cust_target, hide=False, hide_line=False)
+    else:
+        _ss.customize(hide=False, hide_line=False)(cust_target)
+    fr_off = cust_target()
+    if not (fr_on.hide and fr_on.hide_line) or fr_off.hide or fr_off.hide_line:
+        leg.violation(("customize-latest-wins", form), f"customize(hide=True, hide_line=True) then customize(hide=False, hide_line=False): "
+                                                       f"first {(fr_on.hide, fr_on.hide_line)}, then {(fr_off.hide, fr_off.hide_line)}")
+
 for order in (0, 1):
     g1, g2 = generation(), generation()
     assert g1.__code__ == g2.__code__ and g1.__code__ is not g2.__code__
